@@ -8,7 +8,7 @@ import json, os, shutil, subprocess, sys, time, hashlib, random, tempfile, concu
 VERIF = os.path.dirname(os.path.dirname(os.path.abspath(__file__)))
 REPO = os.environ.get("VERIF_REPO", "/repo")
 SPEC = os.path.join(VERIF, "spec")
-OUT = os.path.join(VERIF, "out")
+OUT = os.environ.get("VERIF_OUT") or os.path.join(VERIF, "out")
 BIN = os.path.join(OUT, "bin", "zzverif")
 TLA_CP = "/opt/veriftools/tla/tla2tools.jar:/opt/veriftools/tla/CommunityModules-deps.jar"
 GOENV = dict(os.environ, GOFLAGS="-mod=mod", GOPROXY="off", GOSUMDB="off", GOTOOLCHAIN="local")
@@ -126,15 +126,44 @@ def parse_tlc_stats(text):
     return st
 
 
+TLC_CHUNK = int(os.environ.get("VERIF_TLC_CHUNK", "0") or 0) or 48 << 20
+
+
 def tlc_trace(module, events, tag, nshards=None, timeout=1800, constants="", groups=None):
+    """Validate recorded events against trace spec `module`.  TLC holds a whole trace file in memory (as TLA+
+    values, many times the size of the JSON), so large recordings are validated in batches of whole groups of at most
+    TLC_CHUNK bytes of JSON, one TLC process after the other; verdicts and state counts are merged."""
+    if groups is None:
+        groups = [[e] for e in events]
+    sizes = [sum(len(json.dumps(e, separators=(",", ":"))) + 1 for e in g) for g in groups]
+    if sum(sizes) <= TLC_CHUNK:
+        return _tlc_trace_one(module, tag, nshards, timeout, constants, groups)
+    batches, cur, n = [], [], 0
+    for gi, g in enumerate(groups):
+        if cur and n + sizes[gi] > TLC_CHUNK:
+            batches.append(cur)
+            cur, n = [], 0
+        cur.append(gi)
+        n += sizes[gi]
+    if cur:
+        batches.append(cur)
+    bad, stats = [], {"states": 0, "distinct": 0}
+    for bi, b in enumerate(batches):
+        log("[tlc] %s batch %d/%d (%d groups)" % (module, bi + 1, len(batches), len(b)))
+        bb, st = _tlc_trace_one(module, "%s-b%d" % (tag, bi), nshards, timeout, constants, [groups[gi] for gi in b])
+        bad += [dict(v, group=b[v["group"]]) for v in bb]
+        stats["states"] += st["states"]
+        stats["distinct"] += st["distinct"]
+    return bad, stats
+
+
+def _tlc_trace_one(module, tag, nshards, timeout, constants, groups):
     """Validate recorded events against trace spec `module` in ONE TLC process:
     the groups (lists of events that stay together, in order: one trace each)
     are packed into shards, every shard is one behaviour of the trace spec, and
     TLC's workers validate the shards in parallel.
     Returns (failing verdicts with 'group' and 'pos', stats)."""
     timeout = int(os.environ.get("VERIF_TLC_TIMEOUT", "0") or 0) or timeout
-    if groups is None:
-        groups = [[e] for e in events]
     groups_idx = [gi for gi in range(len(groups)) if groups[gi]]
     if not groups_idx:
         return [], {"states": 0, "distinct": 0}
